@@ -66,6 +66,10 @@ process:
 	atomic.StoreUint32(&m.status, idle)
 	user := atomic.LoadInt32(&m.num)
 	system := atomic.LoadInt32(&m.systemNum)
+	if system <= 0 && user > 0 && atomic.LoadUint32(&m.paused) == 1 {
+		// 暂停期间仅剩普通消息时不再重新竞选（否则会空转自旋），由 Resume 或后续入列重新唤醒
+		return
+	}
 	if user > 0 || system > 0 {
 		if atomic.CompareAndSwapUint32(&m.status, idle, processing) {
 			goto process
